@@ -86,7 +86,8 @@ private theorem hostPart_none (P : Params) (hP : P.Good) (c : ClientCfg) (hostEn
   unfold hostPart
   split
   · rfl
-  · exact effective_filter_none _ _ _ (hP.2.1 k hk)
+  · simp only [filterHost, hP.2.2.2, if_true]
+    exact effective_filter_none _ _ _ (hP.2.1 k hk)
 
 /-! ### the property -/
 
@@ -132,7 +133,7 @@ def cfgPlain : ClientCfg :=
   ⟨[75], [86], 10000, 25000, [1, 2], false, false, [], [], false, [], false⟩
 
 /-- a facts record of a tree that filters the conditional variables -/
-def goodParams : Params := ⟨true, conditionalKeys⟩
+def goodParams : Params := ⟨true, conditionalKeys, true⟩
 
 example : goodParams.Good := by decide
 example : CookieOk cfgPlain := by decide
@@ -222,7 +223,7 @@ theorem host_env_passed (P : Params) (hP : P.Good) (c : ClientCfg) (hskip : c.sk
     (hostEnv.filter (fun e => !(negotiationKeys.contains (cutKey e)))).Sublist (buildEnv P c cmdEnv hostEnv) := by
   have h1 : (hostEnv.filter (fun e => !(negotiationKeys.contains (cutKey e)))).Sublist
       (hostPart P c hostEnv) := by
-    simp only [hostPart, hskip, Bool.and_false, Bool.false_eq_true, if_false]
+    simp only [hostPart, filterHost, hP.2.2.2, hskip, Bool.and_false, Bool.false_eq_true, if_false, if_true]
     induction hostEnv with
     | nil => simp
     | cons e es ih =>
@@ -231,7 +232,7 @@ theorem host_env_passed (P : Params) (hP : P.Good) (c : ClientCfg) (hskip : c.sk
       · have : P.stripped.contains (cutKey e) = false := by
           cases hs : P.stripped.contains (cutKey e)
           · rfl
-          · have hm := hP.2.2 _ (List.contains_iff_mem.1 hs)
+          · have hm := hP.2.2.1 _ (List.contains_iff_mem.1 hs)
             have hm' := List.contains_iff_mem.2 hm
             rw [hn] at hm'
             exact absurd hm' (by simp)
@@ -316,7 +317,7 @@ example : (launch goodParams cfgPlain [] [] .preset).stdin = .host := by decide
 /-! ### The structural facts matter: witnesses of the violation when a fact is false -/
 
 /-- the facts of the tree that appends `os.Environ()` unfiltered -/
-def unfilteredParams : Params := ⟨true, []⟩
+def unfilteredParams : Params := ⟨true, [], true⟩
 
 /-- **D8**: on a tree that inherits the host environment unfiltered, a host that
 is itself a plugin (its environment carries go-plugin's variables) passes each
@@ -330,22 +331,117 @@ theorem inherited_controls_witness :
 
 /-- Filtering only some of them is not enough: each conditional variable needs to be stripped. -/
 theorem partial_strip_witness :
-    effective (buildEnv ⟨true, [kMux, kCert, kGroup]⟩ cfgPlain [] [entry kDir [47, 120]]) kDir = some [47, 120] := by
+    effective (buildEnv ⟨true, [kMux, kCert, kGroup], true⟩ cfgPlain [] [entry kDir [47, 120]]) kDir = some [47, 120] := by
   decide
 
 /-- With `SkipHostEnv` not guarding the append, host variables reach the plugin. -/
 theorem skip_unguarded_witness :
-    ¬ (⟨false, conditionalKeys⟩ : Params).Good ∧
-    [72, 61, 49] ∈ buildEnv ⟨false, conditionalKeys⟩ { cfgPlain with skipHostEnv := true } [] [[72, 61, 49]] := by
+    ¬ (⟨false, conditionalKeys, true⟩ : Params).Good ∧
+    [72, 61, 49] ∈ buildEnv ⟨false, conditionalKeys, true⟩ { cfgPlain with skipHostEnv := true } [] [[72, 61, 49]] := by
   decide
 
 /-- A filter that also removes variables that are not go-plugin's is rejected by `Good`
 (and `host_env_passed` fails for it): here `HOME` is dropped. -/
 theorem overstrip_witness :
-    ¬ (⟨true, [72, 79, 77, 69] :: conditionalKeys⟩ : Params).Good ∧
+    ¬ (⟨true, [72, 79, 77, 69] :: conditionalKeys, true⟩ : Params).Good ∧
     entry [72, 79, 77, 69] [47] ∉
-      buildEnv ⟨true, [72, 79, 77, 69] :: conditionalKeys⟩ cfgPlain [] [entry [72, 79, 77, 69] [47]] := by
+      buildEnv ⟨true, [72, 79, 77, 69] :: conditionalKeys, true⟩ cfgPlain [] [entry [72, 79, 77, 69] [47]] := by
   decide
+
+/-! ### The filter loop itself: no conditional variable survives, wherever it stands -/
+
+/-- **No conditional variable of the host environment survives the filter** —
+for every host environment: any number of go-plugin's conditional variables,
+at any positions, adjacent to each other or not, with duplicates, with entries
+without `=`.  Every entry of the inherited part carries a key that is not one
+of the four conditional names. -/
+theorem no_conditional_survives (P : Params) (hP : P.Good) (c : ClientCfg) (hostEnv : List Bytes) :
+    ∀ e ∈ hostPart P c hostEnv, cutKey e ∉ conditionalKeys := by
+  intro e he hk
+  unfold hostPart at he
+  split at he
+  · simp at he
+  · simp only [filterHost, hP.2.2.2, if_true, List.mem_filter, Bool.not_eq_true'] at he
+    have := List.contains_iff_mem.2 (hP.2.1 _ hk)
+    rw [he.2] at this
+    exact absurd this (by simp)
+
+/-- … in terms of what the runner receives: an entry of `cmd.Env` named like a
+conditional variable was pre-set by the caller on `config.Cmd` or is one of the
+entries the configuration itself asks for — never one of the host's. -/
+theorem conditional_entries_from_config (P : Params) (hP : P.Good) (c : ClientCfg)
+    (cmdEnv hostEnv : List Bytes) :
+    ∀ e ∈ buildEnv P c cmdEnv hostEnv, cutKey e ∈ conditionalKeys → e ∈ cmdEnv ∨ e ∈ configured c := by
+  intro e he hk
+  simp only [buildEnv, List.mem_append] at he
+  rcases he with (he | he) | he
+  · exact .inl he
+  · exact absurd hk (no_conditional_survives P hP c hostEnv e he)
+  · exact .inr he
+
+/-- non-vacuity: all four conditional variables in one adjacent run, one of them twice — nothing is inherited -/
+example : hostPart goodParams cfgPlain
+    [entry kMux sTrue, entry kCert [120], entry kCert [121], entry kGroup [49], entry kDir [47], [72, 61, 49]]
+    = [[72, 61, 49]] := by decide
+
+/-- No entry to be removed directly follows another entry to be removed. -/
+def noAdjacentDrops (drop : Bytes → Bool) : List Bytes → Bool
+  | [] => true
+  | [_] => true
+  | a :: b :: es => !(drop a && drop b) && noAdjacentDrops drop (b :: es)
+
+/-- The in-place loop is only wrong after a deletion: on a host environment in
+which no entry to be removed directly follows another one (in particular with
+at most one such entry) it computes the same list as the per-element filter.
+This is why placing single variables, or several non-adjacent ones, in the host
+environment cannot expose it. -/
+theorem deleteSkipping_eq_filter_of_no_adjacent (drop : Bytes → Bool) (env : List Bytes)
+    (h : noAdjacentDrops drop env = true) :
+    deleteSkipping drop env = env.filter (fun e => !drop e) := by
+  induction env using deleteSkipping.induct drop with
+  | case1 => rfl
+  | case2 e hd => simp [deleteSkipping, hd]
+  | case3 e hd => simp [deleteSkipping, hd]
+  | case4 e e' es hd ih =>
+    simp only [noAdjacentDrops, hd, Bool.true_and, Bool.and_eq_true, Bool.not_eq_true'] at h
+    have h3 : noAdjacentDrops drop es = true := by
+      cases es with
+      | nil => rfl
+      | cons x xs =>
+        have := h.2
+        simp only [noAdjacentDrops, Bool.and_eq_true] at this
+        exact this.2
+    simp [deleteSkipping, hd, h.1, ih h3]
+  | case5 e e' es hd ih =>
+    simp only [noAdjacentDrops, Bool.and_eq_true] at h
+    simp [deleteSkipping, hd, ih h.2]
+
+example : noAdjacentDrops (fun e => conditionalKeys.contains (cutKey e))
+    [entry kMux sTrue, [72, 61, 49], entry kCert [120]] = true := by decide
+
+/-- the facts of a tree whose `hostEnviron` deletes in place without stepping back -/
+def inPlaceParams : Params := ⟨true, conditionalKeys, false⟩
+
+/-- **The loop shape matters.**  With the right set of names but the in-place
+index loop, the second of two ADJACENT conditional variables of the host
+reaches a child whose configuration asks for neither (a host launched with
+multiplexing + AutoMTLS carries exactly this pair, in this order); so does the
+second of two entries with the same name; while a single variable, or two
+separated by another entry, are removed — which is all a generator without
+adjacent conditional variables ever tries. -/
+theorem inplace_filter_witness :
+    ¬ inPlaceParams.Good ∧
+    requested cfgPlain kCert = false ∧
+    effective (buildEnv inPlaceParams cfgPlain [] [entry kMux sTrue, entry kCert [120]]) kCert = some [120] ∧
+    effective (buildEnv inPlaceParams cfgPlain [] [entry kCert [120], entry kCert [121]]) kCert = some [121] ∧
+    effective (buildEnv inPlaceParams cfgPlain [] [[72, 61, 49], entry kCert [120]]) kCert = none ∧
+    effective (buildEnv inPlaceParams cfgPlain [] [entry kMux sTrue, [72, 61, 49], entry kCert [120]]) kCert = none := by
+  decide
+
+/-- … and `no_conditional_survives` fails for it. -/
+theorem inplace_filter_survivor_witness :
+    entry kCert [120] ∈ hostPart inPlaceParams cfgPlain [entry kMux sTrue, entry kCert [120]] ∧
+    cutKey (entry kCert [120]) ∈ conditionalKeys := by decide
 
 /-- The unconditional variables hold on every tree: a different cookie value or
 port range in the host's environment never wins (they are appended later). -/
